@@ -142,6 +142,25 @@ pub fn run_c02(ctx: &Ctx) -> i32 {
         a,
         b,
     ));
+    // what a REFUSED call leaves behind: a refused call opens a state of its own (one per history),
+    // so both backends are driven through every call after every refused call
+    let (a, b) = mk(Order::Asc);
+    let mut res = alphabet(
+        Universe::new("U_res{a,a/b,a/b/c,d}", &["/a", "/a/b", "/a/b/c", "/d"]),
+        &[b"x"],
+        1,
+        thorough,
+    );
+    res.residue = true;
+    spaces.push(pair_space(
+        "C02",
+        "Mem~Phys after a refused call",
+        PairMode::Behaviour,
+        res,
+        true,
+        a,
+        b,
+    ));
     // large and non-UTF-8 contents around the 8 KiB copy buffer, through create / copy / move
     let big = big_pattern(8193);
     let big2 = big_pattern(65537);
@@ -743,6 +762,17 @@ pub fn run_c07(ctx: &Ctx) -> i32 {
     spaces.push(alt_pair(Cfg::Mem, "", Order::Asc, a_set.clone()));
     spaces.push(alt_pair(Cfg::Phys, "/Z/Y", Order::Asc, a_set.clone()));
     spaces.push(alt_pair(Cfg::Phys, "/Z", Order::Asc, a4.clone()));
+    // what a REFUSED call leaves behind in the adapter (one refused call per history is a state of
+    // its own; everything the alphabet offers is then run after it)
+    let mut res = alphabet(
+        Universe::new("U_res{a,a/b,d}", &["/a", "/a/b", "/d"]),
+        &[b"x"],
+        1,
+        thorough,
+    );
+    res.residue = true;
+    spaces.push(alt_pair(Cfg::Mem, "/Z", Order::Asc, res.clone()));
+    spaces.push(alt_pair(Cfg::Phys, "/Z", Order::Asc, res.clone()));
     // odd characters in component names (foreign separator, leading dots, blanks)
     let odd = Universe::new(
         "U_odd",
